@@ -38,6 +38,10 @@ struct Stats {
     auto_commits_select: u64,
     auto_commits_nth_gt0: u64,
     auto_commits_alt_differs: u64,
+    auto_commits_alt_prefix_differs_key: u64,
+    auto_commits_alt_prefix_differs_select: u64,
+    auto_commits_prefix_of_display_pre: u64,
+    auto_commits_nth_changed: u64,
     auto_commits_with_selection: u64,
     auto_commits_with_break: u64,
     auto_commits_multi_interval: u64,
@@ -245,30 +249,51 @@ fn auto_commit(out: &mut Out, st: &Step, by_key: bool) -> (Option<usize>, usize)
         fail(out, st, &format!("auto-commit although the buffer ({} symbols) fits the threshold {}", n_full, thr));
         return (Some(n_full), 0);
     }
-    let nth: usize = mb[2].parse().unwrap();
     if paths.is_empty() {
         fail(out, st, "auto-commit from an empty list of alternatives");
         return (Some(n_full), 0);
     }
-    let path = if nth > 0 { &paths[nth % paths.len()] } else { &paths[0] };
-    let full_text: String = path.iter().map(|i| i.str.to_string()).collect();
+    // WHICH alternative the user is looking at when the overflow is detected is taken from the state BEFORE the
+    // operation (never from the state after it: an implementation that forgets the chosen alternative before it
+    // renders the pushed-out intervals would be asked about itself).  The only operation that changes the chosen
+    // alternative without committing is Tab at the end of the buffer (one further); it can overflow when the limit
+    // was lowered by a configuration call.
+    let nth_pre: usize = ma[2].parse().unwrap();
     let got = st.commit_post;
-    // the least leading part whose removal makes the rest fit
-    let (mut want, mut remove, mut k, mut has_phrase) = (String::new(), 0usize, 0usize, false);
-    for iv in path {
-        want.push_str(&iv.str);
-        remove += iv.end.saturating_sub(iv.start);
-        k += 1;
-        has_phrase |= iv.end.saturating_sub(iv.start) > 1;
-        if n_full.saturating_sub(remove) <= thr {
-            break;
+    let least = |path: &Vec<chewing::conversion::Interval>| {
+        // the least leading part whose removal makes the rest fit
+        let (mut want, mut remove, mut k, mut has_phrase) = (String::new(), 0usize, 0usize, false);
+        for iv in path {
+            want.push_str(&iv.str);
+            remove += iv.end.saturating_sub(iv.start);
+            k += 1;
+            has_phrase |= iv.end.saturating_sub(iv.start) > 1;
+            if n_full.saturating_sub(remove) <= thr {
+                break;
+            }
         }
-    }
+        (want, remove, k, has_phrase)
+    };
+    let pick = |nth: usize| if nth > 0 { &paths[nth % paths.len()] } else { &paths[0] };
+    let tab = matches!(st.key, Some(ev) if ev.code == KeyCode::Tab);
+    let nth = if tab && least(pick(nth_pre)).0 != got && least(pick(nth_pre + 1)).0 == got { nth_pre + 1 } else { nth_pre };
+    let path = pick(nth);
+    let full_text: String = path.iter().map(|i| i.str.to_string()).collect();
+    let (want, remove, k, has_phrase) = least(path);
+    // what the pre-edit showed immediately before the operation (with the chosen alternative), for the report
+    let shown = st.display_pre.map(hx).unwrap_or_else(|| "-".into());
     if !full_text.starts_with(got) {
-        fail(out, st, &format!("commit string {} is not a leading part of the conversion {} of the full buffer", hx(got), hx(&full_text)));
+        fail(out, st, &format!("commit string {} is not a leading part of the conversion {} of the full buffer under the alternative on display (nth {} of {}; the pre-edit displayed before the operation was {})", hx(got), hx(&full_text), nth, paths.len(), shown));
+        // (the checks below measure against the expected path: one defect, one report)
+        return (Some(n_full), 0);
     } else if got != want {
         fail(out, st, &format!("commit string {} is not the least leading part {} of the conversion {} that makes the rest fit threshold {}", hx(got), hx(&want), hx(&full_text), thr));
     }
+    // the part of the pre-edit string the user saw go away: when the new symbol did not re-segment the leading
+    // intervals, the commit string is a leading part of `display()` taken BEFORE the operation
+    let prefix_of_shown = st.display_pre.is_some_and(|d| d.starts_with(got));
+    // would the FIRST alternative have pushed out something else? (what forgetting `nth` too early would commit)
+    let alt_prefix_differs = nth > 0 && least(&paths[0]).0 != want;
     let rest = symbols(post);
     if remove > n_full || rest.len() != n_full - remove || rest.iter().zip(full_syms[remove.min(n_full)..].iter()).any(|(a, b)| *a != b.as_str()) {
         fail(out, st, &format!("remaining symbols are not the full buffer minus the {} symbols under the committed text", remove));
@@ -306,6 +331,15 @@ fn auto_commit(out: &mut Out, st: &Step, by_key: bool) -> (Option<usize>, usize)
             if text(path) != text(&paths[0]) {
                 s.auto_commits_alt_differs += 1;
             }
+        }
+        if alt_prefix_differs {
+            if by_key { s.auto_commits_alt_prefix_differs_key += 1 } else { s.auto_commits_alt_prefix_differs_select += 1 }
+        }
+        if prefix_of_shown {
+            s.auto_commits_prefix_of_display_pre += 1;
+        }
+        if mb[2] != ma[2] && !tab {
+            s.auto_commits_nth_changed += 1;
         }
         if nsel > 0 {
             s.auto_commits_with_selection += 1;
@@ -502,6 +536,10 @@ pub fn stats(out: &mut Out) {
         out.stat("c02_auto_commits_select", s.auto_commits_select);
         out.stat("c02_auto_commits_nth_gt0", s.auto_commits_nth_gt0);
         out.stat("c02_auto_commits_alt_differs", s.auto_commits_alt_differs);
+        out.stat("c02_auto_commits_alt_pushes_out_other_text_key", s.auto_commits_alt_prefix_differs_key);
+        out.stat("c02_auto_commits_alt_pushes_out_other_text_select", s.auto_commits_alt_prefix_differs_select);
+        out.stat("c02_auto_commits_prefix_of_display_before", s.auto_commits_prefix_of_display_pre);
+        out.stat("c02_auto_commits_nth_changed_by_operation", s.auto_commits_nth_changed);
         out.stat("c02_auto_commits_with_selection", s.auto_commits_with_selection);
         out.stat("c02_auto_commits_with_break", s.auto_commits_with_break);
         out.stat("c02_auto_commits_multi_interval", s.auto_commits_multi_interval);
